@@ -376,3 +376,37 @@ MUTANTS["C20"] = [
     M("new_form_not_listed", HW, '            self._data["instruction_forms"].append(instr_data)\n', "", "R5"),
     M("entry_args_swapped", HW, "            entry.latency,\n            entry.port_pressure,\n            entry.throughput,", "            entry.throughput,\n            entry.port_pressure,\n            entry.latency,", "R5"),
 ]
+
+MUTANTS["C01"] = [
+    M("share_constant_divisor", HW, "average_pressure[port_list.index(p)] += cycles / len(ports)", "average_pressure[port_list.index(p)] += cycles / 2", "R1"),
+    M("share_overwrites", HW, "average_pressure[port_list.index(p)] += cycles / len(ports)", "average_pressure[port_list.index(p)] = cycles / len(ports)", "R1"),
+    M("default_option_one", HW, "    def average_port_pressure(self, port_pressure, option=0):", "    def average_port_pressure(self, port_pressure, option=1):", "R1"),
+    M("zero_without_uops_reset", ARCH, "            instruction_form.port_pressure = [0.0 for i in range(port_number)]\n            instruction_form.port_uops = []\n            flags.append(INSTR_FLAGS.TP_UNKWN)", "            instruction_form.port_pressure = [0.0 for i in range(port_number)]\n            flags.append(INSTR_FLAGS.TP_UNKWN)", "R1b"),
+    M("found_uops_from_other_field", ARCH, "        instruction_form.port_uops = instruction_data.port_pressure\n", "        instruction_form.port_uops = instruction_data.uops\n", "R1b"),
+    M("indices_all_ports", ARCH, "                indices = [port_list.index(p) for p in ports]\n                # check if port sum", "                indices = list(range(len(port_list)))\n                # check if port sum", "R2"),
+    M("zero_index_any_port", ARCH, "                                    for p in indices\n                                    if round(instruction_form.port_pressure[p], 2) == 0", "                                    for p in range(len(port_list))\n                                    if round(instruction_form.port_pressure[p], 2) == 0", "R2"),
+    M("itemsetter_wrong_target", ARCH, "self._itemsetter(*indices)(instruction_form.port_pressure, *instr_ports)\n                        # check if min port is zero", "self._itemsetter(*indices)(kernel[0].port_pressure, *instr_ports)\n                        # check if min port is zero", "R2"),
+    M("unpaired_increment", ARCH, "                        instr_ports[max_port_idx] -= INC\n", "", "R3"),
+    M("donor_is_min", ARCH, "                        max_port_idx = port_sums.index(max(port_sums))", "                        max_port_idx = port_sums.index(min(port_sums))", "R3"),
+    M("cap_not_uniform_share", ARCH, "differences = [cycles / len(ports) for p in ports]", "differences = [cycles for p in ports]", "R3"),
+    M("double_quantum_on_receiver", ARCH, "                        instr_ports[min_port_idx] += INC\n", "                        instr_ports[min_port_idx] += INC\n                        instr_ports[min_port_idx] += INC\n", "R3"),
+    M("third_balancing_pass", CLI, "        semantics.assign_optimal_throughput(kernel)\n        semantics.assign_optimal_throughput(kernel)\n", "        semantics.assign_optimal_throughput(kernel)\n        semantics.assign_optimal_throughput(kernel)\n        semantics.assign_optimal_throughput(kernel)\n", "R4"),
+    M("single_pass_is_fine", CLI, "        semantics.assign_optimal_throughput(kernel)\n        semantics.assign_optimal_throughput(kernel)\n", "        semantics.assign_optimal_throughput(kernel)\n", "SILENT", "repairing the known finding must not raise anything"),
+    M("recursion_without_copy", ARCH, "                    k_tmp = deepcopy(kernel)\n", "                    k_tmp = kernel\n", "R4"),
+    M("sum_counts_all_lines", ARCH, "port_pressures = [instr.port_pressure for instr in kernel if instr.throughput != 0.0]", "port_pressures = [instr.port_pressure for instr in kernel if instr.latency != 0.0]", "R5"),
+    M("frontend_own_sum", FE, "            tp_sum = ArchSemantics.get_throughput_sum(kernel)\n            # if ALL instructions are unknown", "            tp_sum = [sum(col) for col in zip(*[instr.port_pressure for instr in kernel])]\n            # if ALL instructions are unknown", "R5"),
+]
+
+MUTANTS["C02"] = [
+    M("receiver_is_max", ARCH, "                        min_port_idx = port_sums.index(min(port_sums))\n                        instr_ports[max_port_idx] -= INC", "                        min_port_idx = port_sums.index(max(port_sums))\n                        instr_ports[max_port_idx] -= INC", "P1"),
+    M("no_write_back", ARCH, "                        self._itemsetter(*indices)(instruction_form.port_pressure, *instr_ports)\n                        # check if min port is zero", "                        # check if min port is zero", "P1"),
+    M("quantum_coarser_than_rounding", ARCH, "        INC = 0.01\n", "        INC = 0.05\n", "P2"),
+    M("totals_rounded_to_one_digit", ARCH, "tp_sum = [round(sum(col), 2) for col in zip(*port_pressures)]", "tp_sum = [round(sum(col), 1) for col in zip(*port_pressures)]", "P2"),
+    M("main_takes_last_alternative", ARCH, "kernel[idx].port_uops = list(instruction_form.port_uops.values())[0]", "kernel[idx].port_uops = list(instruction_form.port_uops.values())[-1]", "P3"),
+    M("collect_worst", ARCH, "if max(self.get_throughput_sum(k_tmp)) < best_kernel_tp:", "if max(self.get_throughput_sum(k_tmp)) > best_kernel_tp:", "P4"),
+    M("swap_when_better", ARCH, "if max(self.get_throughput_sum(kernel)) > best_kernel_tp:", "if max(self.get_throughput_sum(kernel)) < best_kernel_tp:", "P4"),
+    M("swap_only_uops", ARCH, "                    kernel[i].port_uops = best_kernel[i].port_uops\n                    kernel[i].port_pressure = best_kernel[i].port_pressure", "                    kernel[i].port_uops = best_kernel[i].port_uops", "P4"),
+    M("balance_always", ARCH, "                if len(set(port_sums)) > 1:", "                if len(set(port_sums)) >= 1:", "P5"),
+    M("optimise_also_fixed", CLI, "    if not args.fixed:\n        semantics.assign_optimal_throughput(kernel)", "    if True:\n        semantics.assign_optimal_throughput(kernel)", "P6"),
+    M("budget_doubled", ARCH, "for _ in range(int(cycles * (1 / INC))):", "for _ in range(int(2 * cycles * (1 / INC))):", "P2"),
+]
